@@ -28,15 +28,21 @@ def check(chk):
     sr = cl.func('ResponseFuture._set_result')
 
     # ---- dispatch
-    ifs = [n for n in body_walk(sr) if isinstance(n, ast.If) and isinstance(n.test, ast.Call) and src(n.test.func) == 'isinstance' and src(n.test.args[0]) == 'response']
+    # the policy calls, grouped by the isinstance(response, ...) fact that holds on every path reaching them (innermost class test)
+    from ..sem import dispatch_table
+    def _policy_call(c):
+        return isinstance(c.func, ast.Attribute) and c.func.attr.startswith('on_') and src(c.func.value) in ('retry_policy', 'self._retry_policy')
     found = {}
-    for n in ifs:
-        t = n.test.args[1]
-        classes = tuple(src(e) for e in t.elts) if isinstance(t, ast.Tuple) else (src(t),)
-        calls = [c for s in n.body for c in ast.walk(s) if isinstance(c, ast.Call) and isinstance(c.func, ast.Attribute) and c.func.attr.startswith('on_')
-                 and src(c.func.value) in ('retry_policy', 'self._retry_policy')]
-        if calls:
-            found[classes] = (n, calls)
+    per_call = {}
+    for classes, nodes in dispatch_table(sr, 'response', kind='isinstance').items():
+        for nd in nodes:
+            for c in (x for x in walk_no_nested(nd.ast) if isinstance(x, ast.Call) and _policy_call(x)):
+                per_call.setdefault(id(c), (c, []))[1].append(classes)
+    for c, clss in per_call.values():
+        # ErrorMessage is the outer test of the whole error arm; the innermost (most specific) test is the dispatch key
+        inner = [k for k in clss if k != ('ErrorMessage',)] or clss
+        for k in inner:
+            found.setdefault(k, (None, []))[1].append(c)
     for classes, meth, how in DISPATCH:
         hit = [(k, v) for k, v in found.items() if set(k) == set(classes)]
         if not hit:
@@ -66,13 +72,12 @@ def check(chk):
     good = bool(hr_calls) and all([src(a) for a in c.args] == ['retry', 'response', 'host'] for c in hr_calls)
     chk.judge(good, 'C16.dispatch', sr, '_handle_retry_decision(retry, response, host)', 'the decision is not handed over as (retry, response, host)')
     # connection errors consult on_request_error too
-    ce = [n for n in ifs if src(n.test.args[1]) == 'ConnectionException']
     good = False
-    for n in ce:
-        calls = [c for s in n.body for c in ast.walk(s) if isinstance(c, ast.Call) and isinstance(c.func, ast.Attribute) and c.func.attr == 'on_request_error']
-        if len(calls) == 1:
-            kw = dict((k.arg, src(k.value)) for k in calls[0].keywords)
-            good = kw.get('retry_num') == 'self._query_retries' and kw.get('error') == 'response'
+    calls = found.get(('ConnectionException',), (None, []))[1]
+    calls = [c for c in calls if c.func.attr == 'on_request_error']
+    if len(calls) == 1:
+        kw = dict((k.arg, src(k.value)) for k in calls[0].keywords)
+        good = kw.get('retry_num') == 'self._query_retries' and kw.get('error') == 'response'
     chk.judge(good, 'C16.dispatch', sr, 'ConnectionException -> on_request_error(..., error=response, retry_num=self._query_retries)', 'connection errors no longer consult the policy correctly')
     chk.require('C16.dispatch', 6)
 
